@@ -109,15 +109,36 @@ pub fn setup(t: &ExtTask, all_preds: &[(String, usize)]) -> Option<Setup> {
     // HT universe within 9
     let s0 = syms.first().cloned().unwrap_or_else(|| "a".into());
     let cands = vec![
-        vec![Val::Int(1), Val::Int(2), Val::Sym(s0.clone())],
-        vec![Val::Int(1), Val::Sym(s0.clone())],
-        vec![Val::Int(1), Val::Int(2)],
+        vec![Val::Int(0), Val::Int(1), Val::Int(2), Val::Sym(s0.clone())],
+        vec![Val::Int(0), Val::Int(1), Val::Sym(s0.clone())],
+        vec![Val::Int(0), Val::Int(1)],
         vec![Val::Int(1)],
     ];
+    // per-side HT spaces: one variable per input atom, two per other atom
+    let side_preds = |text: &str, is_spec: bool| -> Vec<(String, usize)> {
+        let mut v = public.clone();
+        if !is_spec {
+            if let Ok(p) = text.parse::<asp::Program>() {
+                for q in p.predicates() {
+                    let k = (q.symbol, q.arity);
+                    if !v.contains(&k) {
+                        v.push(k);
+                    }
+                }
+            }
+        }
+        v
+    };
+    let sides = [side_preds(&t.left, t.left_is_spec), side_preds(&t.right, false)];
     let mut active = vec![];
     for c in cands {
-        let n_all: usize = all_preds.iter().map(|(_, a)| c.len().pow(*a as u32)).sum();
-        if n_all <= 15 {
+        let size = |ps: &[(String, usize)]| -> usize { ps.iter().map(|(_, a)| c.len().pow(*a as u32)).sum() };
+        let n_all = size(all_preds);
+        let ht_ok = sides.iter().all(|ps| {
+            let n_in = size(&ps.iter().filter(|k| inputs.contains(k)).cloned().collect::<Vec<_>>());
+            2 * size(ps) - n_in <= 20
+        });
+        if n_all <= 16 && ht_ok {
             active = c;
             break;
         }
@@ -167,7 +188,6 @@ fn stable_public(prog: &asp::Program, st: &Setup, consts: &HashMap<Key, Val>, w:
     }
     let u = universe(&preds, &st.active);
     let n_pub = universe(&st.public, &st.active).len();
-    let hs = ht_space(u.len());
     let slice = slice_for(w, &st.syms);
     let mut cx = refsem::Ctx::new();
     for ((name, _), v) in consts {
@@ -181,6 +201,7 @@ fn stable_public(prog: &asp::Program, st: &Setup, consts: &HashMap<Key, Val>, w:
             mask |= 1 << i;
         }
     }
+    let hs = HtSpace::with_fixed(u.len(), mask);
     let (_, stable) = refsem::stable_table(&hs, &p, mask);
     project(&stable, u.len(), n_pub)
 }
